@@ -319,19 +319,20 @@ Example C18_dropped_interface_addresses_of_both_families_not_reported :
   chk_C18 os_x (stale_report (model_history t0 os_x h_xfam)) = false.
 Proof. exact h_xfam_checked. Qed.
 
-(* Finding C18-del-of-held-address (the model follows the code): an address moves to another
-   interface, an enable call takes it up there before the IP check that drops the old entry; the
-   check then withdraws the bare address from the services with automatic addressing (IpDel as
-   the last word) although the OS table has it on an enabled interface: it was announced with the
-   address on eth1 (iteration 3) and the repeated announcement (iteration 5) no longer carries it.
-   The checker rejects the trace. *)
-Example C18_history_refuted_del_of_held_address :
+(* Repaired finding C18-del-of-held-address (0f7c6ac), former refutation, same history: an address
+   moves to another interface, an enable call takes it up there before the IP check that drops
+   the old entry (IpAdd, announced with it on eth1, iteration 3); the check (iteration 4) reports
+   no IpDel because the address is still held, and the repeated announcement (iteration 5)
+   carries it.  The checker accepts the trace and rejects the one of the old code, where the
+   check reported IpDel as the last word about an address the OS table has on an enabled interface. *)
+Example C18_address_held_elsewhere_is_kept :
   let r := run (initial_state t0 os_mv) h_held in
   ip_events w_v6 (List.nth 3 r []) = [OIpAdd w_v6] /\ existsb (carries w_v6) (List.nth 3 r []) = true /\
-  ip_events w_v6 (List.nth 4 r []) = [OIpDel w_v6] /\
-  (0 <? N.of_nat (List.length (List.nth 5 r []))) = true /\ existsb (carries w_v6) (List.nth 5 r []) = false /\
-  chk_C18 os_mv (model_history t0 os_mv h_held) = false.
-Proof. exact h_held_refutes. Qed.
+  ip_events w_v6 (List.nth 4 r []) = [] /\
+  existsb (carries w_v6) (List.nth 5 r []) = true /\
+  chk_C18 os_mv (model_history t0 os_mv h_held) = true /\
+  chk_C18 os_mv (with_del (model_history t0 os_mv h_held)) = false.
+Proof. exact h_held_checked. Qed.
 
 Print Assumptions C18_selection_last_match_wins.
 Print Assumptions C18_apply_marks_last_match.
@@ -366,4 +367,4 @@ Print Assumptions C18_removal_example.
 Print Assumptions C18_history_example.
 Print Assumptions C18_moved_address_withdrawn_then_added.
 Print Assumptions C18_dropped_interface_addresses_of_both_families_not_reported.
-Print Assumptions C18_history_refuted_del_of_held_address.
+Print Assumptions C18_address_held_elsewhere_is_kept.
